@@ -98,7 +98,10 @@ class MapType(MichelsonType, prim='map', args_len=2):
     def parse_python_object(cls, py_obj) -> List[Tuple[MichelsonType, MichelsonType]]:
         assert isinstance(py_obj, dict), f'expected dict, got {type(py_obj).__name__}'
         items = [(cls.args[0].from_python_object(k), cls.args[1].from_python_object(v)) for k, v in py_obj.items()]
-        return sorted(items, key=lambda x: x[0])
+        items = sorted(items, key=lambda x: x[0])
+        # NOTE: different python objects can denote the same key (e.g. 0 and '1970-01-01T00:00:00Z')
+        cls.check_constraints(items)
+        return items
 
     @classmethod
     def from_python_object(cls, py_obj) -> 'MapType':
